@@ -322,6 +322,11 @@ class MessageQueue(Entity):
 
         yield self._delivery_latency
 
+        # The message may have been acknowledged or dead-lettered while this
+        # delivery was in transit; it must not reach a consumer any more.
+        if message_id not in self._messages:
+            return None
+
         # Create delivery event (stamped with the clock after the latency wait)
         delivery_event = Event(
             time=self._clock.now if self._clock else now,
